@@ -1,6 +1,6 @@
 CONSTANTS N = 3  W = 1
           T = 2  MaxOut = 2  Base = 1  Fee = 1  KMax = 3
-          SendAmts = {2}  OwnModes = {1}  MaxIns = 2  MaxBlockTx = 2
+          SendAmts = {2}  OwnModes = {2}  MaxIns = 2  MaxBlockTx = 2
           MaxDeliver = 99  MaxMem = 0  MaxSend = 0  MaxRewind = 1
           RewindInclusive <- SwRI  KeepOnConfirm <- SwKC  KeepOnMempool <- SwKM
           UnconfInZero <- SwUZ  ZeroSentinel <- SwZS
